@@ -65,8 +65,8 @@ func init() {
 
 func init() {
 	props["C28"] = &PropSpec{
-		Rules:      []string{"hdr/native", "native/argidx"},
-		Decides:    "for every method the std headers declare native and for which a native registration on the same class resolves (about 2400 pairs): the registration takes exactly the parameters the header declares (the VM sizes the argument slice from the registration, so fewer means an out-of-range read, more means shifted arguments); and every native method body indexes its argument slice only within the parameter count it is registered with.",
+		Rules:      []string{"hdr/native", "native/argidx", "native/argrep"},
+		Decides:    "for every native method whose header declares a parameter (or the receiver) as one of the simple built-in value classes (about 1100 argument positions): the accessors the native applies directly to that argument assume only representations that class can have, so a typed overload such as Float#+@1(other: Int) is not implemented by a body that reads a Float; for every method the std headers declare native and for which a native registration on the same class resolves (about 2400 pairs): the registration takes exactly the parameters the header declares (the VM sizes the argument slice from the registration, so fewer means an out-of-range read, more means shifted arguments); and every native method body indexes its argument slice only within the parameter count it is registered with.",
 		NotCovered: "native methods reached only through included mixins or through containers the analysis does not resolve (counted in the evidence, not decided); parameter and return *types* (see C01/C02 rules); thrown-error classes; semantic correctness of results.",
 	}
 }
@@ -109,12 +109,12 @@ func init() {
 		NotCovered: "numeric formatting (float %g round trip, big floats, literal bases and suffixes), String#to_int, regex inspect, and nesting of collections: these depend on numeric values, not on table shape.",
 	}
 	props["C01"] = &PropSpec{
-		Rules:      []string{"native/argidx", "optable/siteinfo", "cover/offsets", "cover/rebase", "stack/stale-after-reentry", "effect/mayfatal-unlock", "path/recoverguard", "path/snapshot-first", "effect/selfrec"},
+		Rules:      []string{"native/argidx", "native/argrep", "optable/siteinfo", "cover/offsets", "cover/rebase", "stack/stale-after-reentry", "effect/mayfatal-unlock", "path/recoverguard", "path/snapshot-first", "effect/selfrec"},
 		Decides:    "nine host-crash mechanisms, each enumerated over all of its sites: a native method indexes its argument slice only within the parameter count it is registered with; a call instruction is always paired with the call-site record type its handler reinterprets through an unsafe pointer, also after instructions were moved; growing the value stack rebases every saved address, and no VM function uses a stack address across a call that can grow the stack; no program-driven unlock can reach the runtime's unrecoverable fatal error; sends, closes, selects and wait-group decrements on program-held objects are recovered or guarded; a method's defer prologue cannot be lost to a flag snapshot taken too late; no function is an unconditional self call.",
 		NotCovered: "index-out-of-range, nil dereference and explicit panic sites whose guard depends on run-time values; representation mismatches between a native method's declared parameter types and the accessors it applies (planned ARGREP engine, not built); Go map concurrent-write fatals from racy Elk programs; soundness of the Elk type system itself. Open finding: select with a send case on a closed channel (listed under C25).",
 	}
 	props["C02"] = &PropSpec{
-		Rules:      []string{"ops/typedguard", "bind/static-guard", "cover/deepcopy"},
+		Rules:      []string{"ops/typedguard", "native/argrep", "bind/static-guard", "cover/deepcopy"},
 		Decides:    "three places where a static type is turned into an unchecked run-time assumption: a typed opcode chosen under IsSubtype(_, Int/Float) is executed by a handler that reads the operand with exactly those accessors; a call on a class-typed receiver is bound statically only under `exact || class has no children`; and the Children sets (with every other field) survive the deep copy of the type environment that the REPL restores, so the no-children test stays truthful.",
 		NotCovered: "narrowing soundness, subtyping, generic instantiation, and whether each native method returns a value of its declared return type (planned ARGREP results, not built; the Regex#* example named in the property is therefore not decided).",
 	}
